@@ -5,12 +5,14 @@ package main
 
 import (
 	"context"
+	"encoding/json"
 	"errors"
 	"fmt"
 	"math/big"
 	"reflect"
 	"sort"
 
+	numscript "github.com/formancehq/numscript"
 	"github.com/formancehq/numscript/internal/interpreter"
 	"github.com/formancehq/numscript/internal/parser"
 )
@@ -393,6 +395,11 @@ func execCase(c *ExecCase) map[string]any {
 	}
 	result["go"] = o
 
+	// the public API of the root package (what library users call) must give what RunProgram gives
+	if d := apiDiffs(c, o); len(d) > 0 {
+		result["apiDiff"] = d
+	}
+
 	// C11: repeated runs on the same ParseResult and the same (caller-owned) inputs
 	if c.Repeat > 1 {
 		diffs := []string{}
@@ -434,4 +441,56 @@ func execCase(c *ExecCase) map[string]any {
 func canonOut(o ExecOut) ExecOut {
 	o.Queries = nil // the query log may legitimately come in any map order; compared separately as sets
 	return o
+}
+
+// apiDiffs runs the case through numscript.Parse(..).Run / RunWithFeatureFlags (fresh inputs, fresh store) and
+// lists how the outcome differs from the direct interpreter.RunProgram call.
+func apiDiffs(c *ExecCase, direct ExecOut) (diffs []string) {
+	defer func() {
+		if r := recover(); r != nil {
+			if direct.Outcome != "panic" {
+				diffs = append(diffs, "public API panicked: "+fmt.Sprint(r))
+			}
+		}
+	}()
+	pr := numscript.Parse(c.Script)
+	if pr.GetSource() != c.Script {
+		diffs = append(diffs, "GetSource differs from the text parsed")
+	}
+	if len(pr.GetParsingErrors()) != len(parser.Parse(c.Script).Errors) {
+		diffs = append(diffs, "GetParsingErrors differs from parser.Parse")
+	}
+	bal := mkBalances(c.Balances)
+	meta := mkMeta(c.Meta)
+	store := &recStore{policy: c.Store, balances: bal, meta: meta, failAt: c.FailAt,
+		static: interpreter.StaticStore{Balances: bal, Meta: meta}}
+	var res numscript.ExecutionResult
+	var err numscript.InterpreterError
+	if len(c.Flags) == 0 {
+		res, err = pr.Run(context.Background(), copyVars(c.Vars), store)
+	} else {
+		flags := map[string]struct{}{}
+		for _, f := range c.Flags {
+			flags[f] = struct{}{}
+		}
+		res, err = pr.RunWithFeatureFlags(context.Background(), copyVars(c.Vars), store, flags)
+	}
+	var o ExecOut
+	r := runOutput{err: err, log: store.log}
+	if err == nil {
+		r.res = &res
+	} else if len(res.Postings) != 0 || len(res.Metadata) != 0 || len(res.AccountsMetadata) != 0 {
+		diffs = append(diffs, "public API returns a result together with an error")
+	}
+	fillOut(&o, r)
+	a, b := canonOut(direct), canonOut(o)
+	a.StmtEnds, b.StmtEnds = nil, nil
+	a.Mutated, b.Mutated = nil, nil
+	a.BothResultAndError, b.BothResultAndError = false, false
+	if !reflect.DeepEqual(a, b) {
+		ja, _ := json.Marshal(a)
+		jb, _ := json.Marshal(b)
+		diffs = append(diffs, "RunProgram gives "+string(ja)+" , the public API gives "+string(jb))
+	}
+	return diffs
 }
